@@ -100,26 +100,35 @@ Theorem C11_full : forall c n, gwf c = true -> g_above_step c = true -> g_rates_
   gimpl_run c n = Ok (gspec_run c n).
 Proof. exact gfull_scope. Qed.
 Print Assumptions C11_full.
-(* g_steps_exact holds outside the open finding D111 and inside the property's scope *)
+(* ... and in the form whose hypotheses are all scope conditions of the property itself: delays above the step size, plain discrete
+   delays of at least two steps (shorter ones are deliberately neglected), round(rate,12) injective on the rates present *)
+Theorem C11_full_scope : forall c n, gwf c = true -> g_above_step c = true -> g_rates_exact c = true -> g_plain_ge2 c = true ->
+  gimpl_run c n = Ok (gspec_run c n).
+Proof. exact gfull_scope_only. Qed.
+Print Assumptions C11_full_scope.
+(* g_steps_exact holds inside the property's scope (the other hypothesis is trivially true since fix D114) *)
 Theorem C11_steps_exact : forall c, g_no_plain_in_spread_group c = true -> g_plain_ge2 c = true -> g_steps_exact c = true.
 Proof. exact steps_exact_of_guards. Qed.
 Print Assumptions C11_steps_exact.
-(* D111 (open; replayed on the real code: corpus/C11): a plain discrete delay of 4 steps on an edge whose source variable also has an
-   edge with a spread is silently DROPPED (the spread-less edge gets the kernel of order 0); vectorize=True: already when another unit
-   of the merged source vector has the spread edge — the non-vectorized compilation of that circuit is right *)
+(* D114, repaired in /repo (model switch Gamma.fixed_mixed_kinds = true): a plain discrete delay on an edge whose (merged) source
+   variable also has an edge with a spread used to be silently DROPPED (the spread-less slot got the kernel of order 0), vectorized
+   already when another unit of the merged source vector had the spread edge, so vec and non-vec compilations differed.  The former
+   witness (corpus/C11/reg_D114_mixed_kinds.json) is inside all hypotheses of C11_full in both vectorize settings. *)
 Definition w_mixed := mkGC dt8 true 0 [S1; mkNode true 0 (mkq 2 1) (mkq 1 1); T0; T0]
   [mkG 0 2 (mkq 1 1) (Some (mkq 1 2, None)); mkG 1 3 (mkq 1 1) (Some (mkq 2 1, Some (mkq 1 1)))].
-Theorem C11_refuted_mixed_kinds : gwf w_mixed = true /\ g_no_plain_in_spread_group w_mixed = false /\
-  impl_steps w_mixed = [0; 0]%nat /\ spec_steps w_mixed = [4; 0]%nat /\
-  gimpl_run w_mixed 8 <> Ok (gspec_run w_mixed 8) /\
+Example C11_fixed_mixed_kinds : gwf w_mixed = true /\ g_no_plain_in_spread_group w_mixed = true /\
+  impl_steps w_mixed = [4; 0]%nat /\ spec_steps w_mixed = [4; 0]%nat /\
+  gimpl_run w_mixed 8 = Ok (gspec_run w_mixed 8) /\
   gimpl_run (mkGC dt8 false 0 (gnodes w_mixed) (gedges w_mixed)) 8 = Ok (gspec_run (mkGC dt8 false 0 (gnodes w_mixed) (gedges w_mixed)) 8).
 Proof.
   split; [vm_compute; reflexivity|]. split; [vm_compute; reflexivity|]. split; [vm_compute; reflexivity|].
-  split; [vm_compute; reflexivity|]. split.
-  - apply res_eqb_false_neq. vm_compute. reflexivity.
-  - apply C11_full; vm_compute; reflexivity.
+  split; [vm_compute; reflexivity|]. split; apply C11_full; vm_compute; reflexivity.
 Qed.
-Print Assumptions C11_refuted_mixed_kinds.
+Print Assumptions C11_fixed_mixed_kinds.
+(* the mixed-kinds guard holds of every circuit now *)
+Theorem C11_mixed_guard_trivial : forall c, g_no_plain_in_spread_group c = true.
+Proof. intros c. reflexivity. Qed.
+Print Assumptions C11_mixed_guard_trivial.
 (* the unrestricted statement C11_full_statement fails only on that scope boundary: a delay below the step size is ignored *)
 Definition w_short := mkGC dt8 false 0 [S1; T0] [mkG 0 1 (mkq 1 1) (Some (mkq 1 16, Some (mkq 1 16)))].
 Theorem C11_full_refuted : ~ C11_full_statement.
